@@ -403,3 +403,17 @@ Qed.
 Lemma wait_schedule_independent filt log1 log2 ws1 ws2 : arrivals ws1 = arrivals ws2 ->
   wait_scan filt log1 ws1 = wait_scan filt log2 ws2.
 Proof. intros H. rewrite !wait_next_match, H. reflexivity. Qed.
+
+(* the deadline: whatever is logged at or after a wake-up past the deadline is never handed out *)
+Lemma arrivals_app_stop pre s : arrivals s = [] -> arrivals (pre ++ s) = arrivals pre.
+Proof.
+  intros H. induction pre as [|[|b late] r IH]; cbn [app arrivals]; [assumption|reflexivity|].
+  destruct b as [|x b]; [reflexivity|]. destruct late; [reflexivity|]. rewrite IH. reflexivity.
+Qed.
+
+Lemma wait_deadline filt log pre b r :
+  wait_scan filt log (pre ++ WNew b true :: r) = wait_scan filt log pre.
+Proof.
+  rewrite !wait_next_match. rewrite arrivals_app_stop; [reflexivity|].
+  cbn [arrivals]. destruct b; reflexivity.
+Qed.
